@@ -118,6 +118,9 @@ class QuadProblem(Problem):
                                 (np.concatenate([S.row, S.row]), np.concatenate([S.col, S.col]))), shape=M.shape)
             if self.fmt == "coo":
                 return S
+        if self.fmt == "alt":        # a different storage format on every call (same matrix, other entry order)
+            self._alt = getattr(self, "_alt", 0) + 1
+            return S.asformat(["csr", "csc", "coo"][self._alt % 3])
         return S.asformat(self.fmt)
 
     def _ret(self, key, x, y, make):
